@@ -63,3 +63,43 @@ Proof.
   destruct a, b; unfold var_eqb; cbn. rewrite andb_true_iff, String.eqb_eq, ty_eqb_eq.
   split; [intros [-> ->]; auto | intros [= -> ->]; auto].
 Qed.
+
+Lemma bvop_eqb_eq a b : bvop_eqb a b = true <-> a = b.
+Proof. destruct a, b; cbn; split; congruence. Qed.
+Lemma bvrel_eqb_eq a b : bvrel_eqb a b = true <-> a = b.
+Proof. destruct a, b; cbn; split; congruence. Qed.
+Lemma strop_eqb_eq a b : strop_eqb a b = true <-> a = b.
+Proof. destruct a, b; cbn; split; congruence. Qed.
+
+Lemma vars_eqb_eq l1 l2 : list_eqb var_eqb l1 l2 = true <-> l1 = l2.
+Proof. apply list_eqb_eq. apply Forall_forall. intros x _ y. apply var_eqb_eq. Qed.
+Lemma zs_eqb_eq l1 l2 : list_eqb Z.eqb l1 l2 = true <-> l1 = l2.
+Proof. apply list_eqb_eq. apply Forall_forall. intros x _ y. apply Z.eqb_eq. Qed.
+
+Ltac eqb_to_eq :=
+  repeat rewrite andb_true_iff;
+  repeat first [rewrite Z.eqb_eq | rewrite String.eqb_eq | rewrite ty_eqb_eq | rewrite vars_eqb_eq
+               | rewrite zs_eqb_eq | rewrite bvop_eqb_eq | rewrite bvrel_eqb_eq | rewrite strop_eqb_eq
+               | rewrite Bool.eqb_true_iff].
+
+Lemma op_eqb_eq a b : op_eqb a b = true <-> a = b.
+Proof.
+  destruct a, b; cbn; try (split; congruence); eqb_to_eq;
+    (split; [intros H; repeat match goal with H : _ /\ _ |- _ => destruct H end; subst; reflexivity
+            | intros H; injection H; intros; subst; repeat split; reflexivity]).
+Qed.
+
+Lemma term_eqb_eq : forall a b, term_eqb a b = true <-> a = b.
+Proof.
+  induction a as [o args IH] using term_ind'. intros [o2 args2]. cbn [term_eqb].
+  rewrite andb_true_iff, op_eqb_eq.
+  assert (G : forall l2, (fix go (l1 l2 : list term) {struct l1} : bool :=
+             match l1, l2 with
+             | [], [] => true
+             | x :: r1, y :: r2 => term_eqb x y && go r1 r2
+             | _, _ => false
+             end) args l2 = true <-> args = l2).
+  { induction IH as [|x r Hx Hr IHr]; intros [|y l2]; try (split; congruence).
+    rewrite andb_true_iff, Hx, IHr. split; [intros [-> ->]; auto | intros [= -> ->]; auto]. }
+  rewrite G. split; [intros [-> ->]; auto | intros [= -> ->]; auto].
+Qed.
